@@ -418,6 +418,9 @@ func ExtractApply(c *Ctx, name string) (*Sibling, error) {
 		return nil, err
 	}
 	recv := c.recvObj(fd)
+	if s.SwitchFunc != nil {
+		recv = c.recvObj(s.SwitchFunc)
+	}
 	pkgPath := c.Pkg.PkgPath
 	for _, tn := range s.Order {
 		cs := s.Cases[tn]
